@@ -121,7 +121,7 @@ def run(prop, tier="quick", replay=None, facts_dir=None, repo="/repo", write_evi
                 lines.append("  violated: %s\n      at %s\n      %s" % (o.key, o.loc(), o.why))
             lines.append("VIOLATION property=%s replay=%s" % (prop, replay_path))
         wall = time.time() - t0
-        if write_evidence and not replay:
+        if write_evidence and not replay and not os.environ.get("PV_NO_EVIDENCE"):
             ev = evidence(ctx, mod, prop, tier, obs, new, kn, wall)
             os.makedirs(os.path.join(HERE, "evidence"), exist_ok=True)
             with open(os.path.join(HERE, "evidence", "%s.json" % prop), "w") as f:
